@@ -283,7 +283,7 @@ func checkC02(w *World, r *Report) {
 	r.ok("C02.noreflectset", nil, "scan", token.NoPos, "no reflect.Value.Set* call in the library")
 	checkRegUnreachable(w, r)
 	r.Notes = append(r.Notes, "soundness sketch: if every container write has a base allocated in the current activation, then at the moment of any write no binding, collection or closure references the storage, so no observable value changes; read-only sharing of backing arrays (rest, subvec, seq, vec, with-meta) is then harmless")
-	r.Assumptions = append(r.Assumptions, "flow-insensitive inside one activation: a write to fresh storage after the same activation has already published it is not detected", "writes to *Atom, *Future and Env.data are out of scope by type (the mutable cells of the language)", "embedder-supplied Go functions obey the same rule")
+	r.Assumptions = append(r.Assumptions, "publication is tracked through calls only (storage passed to a call that can keep it, then written again, is reported); a write to fresh storage after the same activation stored it into another heap object is not detected", "writes to *Atom, *Future and Env.data are out of scope by type (the mutable cells of the language)", "embedder-supplied Go functions obey the same rule")
 }
 
 // ruleContainerWrites checks every container write in the selected functions; returns the number of sites.
@@ -358,6 +358,9 @@ func ruleContainerWrites(w *World, r *Report, e *Engine, rule string, include fu
 					if handed := handedOutInLoop(in, base); handed != nil {
 						ok = false
 						why = "the storage is allocated outside the loop but passed to " + describeCallInstr(e, handed) + " inside it and written again on the next iteration: the value handed out earlier changes"
+					} else if handed := handedOutBefore(in, base); handed != nil {
+						ok = false
+						why = "the storage was already handed to " + describeCallInstr(e, handed) + " (which can keep it) on a path to this write: the value handed out changes afterwards"
 					}
 				}
 				switch {
@@ -671,4 +674,146 @@ func writesParam(fn *ssa.Function, idx int, seen map[*ssa.Function]bool, depth i
 		}
 	}
 	return false
+}
+
+
+// handedOutBefore: the storage the write goes to was passed, earlier on some path through the function, to a
+// call that can retain it (a function value, an interface method, or a module function that stores or returns
+// its parameter); straight-line counterpart of handedOutInLoop.
+func handedOutBefore(write ssa.Instruction, base ssa.Value) ssa.CallInstruction {
+	root := storageRoot(base)
+	if root == nil {
+		return nil
+	}
+	fn := write.Parent()
+	for _, b := range fn.Blocks {
+		for _, in := range b.Instrs {
+			ci, ok := in.(ssa.CallInstruction)
+			if !ok || in == write {
+				continue
+			}
+			if _, isB := ci.Common().Value.(*ssa.Builtin); isB {
+				continue
+			}
+			passed := false
+			for _, a := range ci.Common().Args {
+				if storageRoot(a) == root {
+					passed = true
+				}
+			}
+			if !passed || !mayRetain(ci) {
+				continue
+			}
+			// the call happens before the write on some path
+			if b == write.Block() {
+				before := false
+				for _, x := range b.Instrs {
+					if x == in {
+						before = true
+						break
+					}
+					if x == write {
+						break
+					}
+				}
+				if before {
+					return ci
+				}
+				continue
+			}
+			if blockReaches(b, write.Block(), false) {
+				return ci
+			}
+		}
+	}
+	return nil
+}
+
+// mayRetain: the callee can keep a reference to a container argument beyond the call.
+func mayRetain(ci ssa.CallInstruction) bool {
+	c := ci.Common()
+	sc := c.StaticCallee()
+	if sc == nil {
+		return true // function value or interface method: a lisp function can keep its arguments
+	}
+	if !strings.HasPrefix(fnPkgPath(sc), modPath) {
+		return false // standard library helpers (sort, strings, fmt …) do not keep lisp containers
+	}
+	switch sc.Name() {
+	case "Apply", "EVAL":
+		return true
+	}
+	// a module function retains a parameter when it stores it, returns it or hands it on
+	for i, a := range c.Args {
+		if storageRoot(a) == nil || i >= len(sc.Params) {
+			continue
+		}
+		if paramEscapes(sc.Params[i], map[*ssa.Function]bool{}, 0) {
+			return true
+		}
+	}
+	return false
+}
+
+func paramEscapes(p *ssa.Parameter, seen map[*ssa.Function]bool, depth int) bool {
+	fn := p.Parent()
+	if depth > 3 || seen[fn] {
+		return depth > 3
+	}
+	seen[fn] = true
+	var esc func(v ssa.Value, d int) bool
+	visited := map[ssa.Value]bool{}
+	esc = func(v ssa.Value, d int) bool {
+		if d > 8 || visited[v] {
+			return false
+		}
+		visited[v] = true
+		for _, ref := range *v.Referrers() {
+			switch u := ref.(type) {
+			case *ssa.Store:
+				if u.Val == v {
+					return true
+				}
+			case *ssa.Return:
+				return true
+			case *ssa.MakeInterface:
+				if esc(u, d+1) {
+					return true
+				}
+			case *ssa.Slice:
+				if esc(u, d+1) {
+					return true
+				}
+			case *ssa.Phi:
+				if esc(u, d+1) {
+					return true
+				}
+			case *ssa.MakeClosure:
+				return true
+			case ssa.CallInstruction:
+				if _, isB := u.Common().Value.(*ssa.Builtin); isB {
+					if bi := u.Common().Value.(*ssa.Builtin); bi.Name() == "append" {
+						if val, ok := ref.(ssa.Value); ok && esc(val, d+1) {
+							return true
+						}
+					}
+					continue
+				}
+				sc := u.Common().StaticCallee()
+				if sc == nil {
+					return true
+				}
+				if !strings.HasPrefix(fnPkgPath(sc), modPath) {
+					continue
+				}
+				for i, a := range u.Common().Args {
+					if a == v && i < len(sc.Params) && paramEscapes(sc.Params[i], seen, depth+1) {
+						return true
+					}
+				}
+			}
+		}
+		return false
+	}
+	return esc(p, 0)
 }
